@@ -1,6 +1,7 @@
 import TinsModel.Matching.LemmasSafety
 import TinsModel.Matching.LemmasRefine
 import TinsModel.Matching.LemmasMirror2
+import TinsModel.Matching.LemmasOther
 /- Property C14 — response matching accepts mirrored replies, rejects strangers, is memory-safe.
    Theorems only; model in Matching/Model.lean, specification in Matching/Spec.lean + Matching/Mirror.lean,
    helper lemmas in Matching/Lemmas*.lean.  The model is the tree after the four `fix:` commits of C14. -/
@@ -70,6 +71,42 @@ theorem stranger_rejected (r : List SLayer) (m : List RLayer) (hs : shape r m = 
 theorem mirror_is_not_a_stranger (r : List SLayer) (h : wfReq r = true) :
     shape r (mirror r) = true ∧ verdictR r (mirror r) = .accept :=
   ⟨shape_mirror r h, verdictR_mirror r h⟩
+
+/-! ### matchers outside the mirrored-reply specification: closed forms over all buffers -/
+
+/-- PDUCacher forwards: wrapping any chain changes nothing. -/
+theorem pducacher_forwards (st : List Layer) (b : Bytes) : matchStack (.cacher :: st) b = matchStack st b :=
+  cacher_transparent st b
+
+/-- RawPDU matches everything, a class that keeps `PDU::matches_response` matches nothing. -/
+theorem rawpdu_and_default (rest : List Layer) (b : Bytes) :
+    matchStack (.raw :: rest) b = .ok true ∧ matchStack (.other :: rest) b = .ok false :=
+  ⟨raw_always rest b, other_never rest b⟩
+
+/-- BootP/DHCP: matched iff the buffer holds a whole BootP header with the request's transaction id. -/
+theorem bootp_matches_iff (xid : Bytes) (rest : List Layer) (b : Bytes) :
+    matchStack (.bootp xid :: rest) b = .ok (decide (236 ≤ b.length) && slice b 4 4 == xid) :=
+  bootp_char xid rest b
+
+/-- ARP: matched iff the reply's sender / target protocol addresses are the request's target / sender. -/
+theorem arp_matches_iff (spa tpa : Bytes) (rest : List Layer) (b : Bytes) :
+    matchStack (.arp spa tpa :: rest) b =
+      .ok (decide (28 ≤ b.length) && (slice b 14 4 == tpa && slice b 24 4 == spa)) :=
+  arp_char spa tpa rest b
+
+/-- DHCPv6: matched iff neither message is a relay message and the transaction ids agree. -/
+theorem dhcpv6_matches_iff (hdr : Bytes) (rest : List Layer) (b : Bytes) :
+    matchStack (.dhcpv6 hdr :: rest) b =
+      .ok (!(hdr.getD 0 0 == 12 || hdr.getD 0 0 == 13) && decide (4 ≤ b.length) &&
+           !(b.getD 0 0 == 12 || b.getD 0 0 == 13) && slice hdr 1 3 == slice b 1 3) :=
+  dhcpv6_char hdr rest b
+
+/-- Loopback: the inner PDU decides on the bytes after the 4-byte family word; alone, the family word is compared. -/
+theorem loopback_matches_iff (family : Bytes) (rest : List Layer) (b : Bytes) :
+    matchStack (.loopback family :: rest) b =
+      if b.length < 4 then .ok false
+      else if rest.isEmpty then .ok (family == slice b 0 4) else matchStack rest (b.drop 4) :=
+  loopback_char family rest b
 
 /-! ### non-vacuity -/
 
